@@ -221,7 +221,9 @@ func (b *B) Say(loud bool) (interface{}, error) {
 	return b.B.ReflResolve(b.ID, "say", map[string]interface{}{"loud": loud})
 }
 
-func (q *Query) Pv() (interface{}, error) { return q.r("pv", nil) }
+func (q *Query) Odd() (interface{}, error)  { return q.r("odd", nil) }
+func (q *Query) Odds() (interface{}, error) { return q.r("odds", nil) }
+func (q *Query) Pv() (interface{}, error)   { return q.r("pv", nil) }
 func (q *Query) Pp() (interface{}, error) { return q.r("pp", nil) }
 func (q *Query) Ps() (interface{}, error) { return q.r("ps", nil) }
 
